@@ -10,7 +10,8 @@ declared parameter types (globals set to values of their types) must end in a va
 IndexError of an indexing opcode — any other exception, and any exception while lowering/optimising/linking, is an
 internal error, reported with its class and raising site.  Programs: the 13 x 14 x 14 operator grid over the spellable
 types (every binary operator on every pair of scalar/vector/matrix types), constructor/cast/swizzle/index probes on
-every type, all generators of the other checks (scalar core, calls, vectors/matrices, histories' modules), the
+every type, float literals in int positions (implicit conversions folded by the optimiser), every swizzle mask of 1-4 letters
+over xyzw/rgba on every type as read and as write target (sampled in the quick tier), all generators of the other checks, the
 whole-language corpus, and a deliberately ill-typed stream (which must be rejected by the front end, not later)."""
 import copy, itertools, random
 import common, implrun, progfam, proglib, gen, gen_calls, gen_vec, wholelang, lang
@@ -91,6 +92,39 @@ def probes():
     return out
 
 
+def conv_probes():
+    """float literals (integral and not) in positions where the front end converts implicitly to int/uint, the converted value
+    then used where only an int works (index, %, array subscript) — the folded constant must be an int at both settings"""
+    out = []
+    for k in ("0.0", "1.0", "2.0", "3.0", "2.5", "1", "0.5"):
+        out += [("function pick(int i, float4 v) -> float { return v[i]; }\nexport function f(float4 v) -> float { return pick(%s, v); }" % k, dict(v="float4")),
+                ("function pick(int i, int[4] t) -> int { return t[i]; }\nexport function f(int a) -> int { int[4] t; t[1] = a; return pick(%s, t); }" % k, dict(a="int")),
+                ("function pick(uint i, int[4] t) -> int { return t[i]; }\nexport function f(int a) -> int { int[4] t; t[1] = a; return pick(%s, t); }" % k, dict(a="int")),
+                ("export function f(float4 v) -> float { int2 k = int2(%s, 3.0); return v[k.x] + v[k.y]; }" % k, dict(v="float4")),
+                ("export function f(float4 v) -> float { uint2 k = uint2(%s, 1.0); return v[k.x] + v[k.y]; }" % k, dict(v="float4")),
+                ("export function f(int a) -> int { int[4] t; t[%s] = a; return t[%s]; }" % (k, k), dict(a="int")),
+                ("function m(int i, int j) -> int { return i %% j; }\nexport function f(int a) -> int { return m(a, %s) + m(%s, 3); }" % (k if k not in ("0.0", "0.5") else "2.0", k), dict(a="int")),
+                ("function h(int i) -> int { int[4] t; t[i] = i; return t[i]; }\nexport function f(int a) -> int { return h(%s) + h(1); }" % k, dict(a="int")),
+                ("function h(int3 i, float4 v) -> float { return v[i.x] + v[i.z]; }\nexport function f(float4 v) -> float { return h(int3(%s, 0.0, 2.0), v); }" % k, dict(v="float4")),
+                ("export function f(float4x4 q) -> float { int i = 1; i = %s; return q[i][i]; }" % k, dict(q="float4x4"))]
+    return out
+
+
+def swizzle_probes():
+    """every mask of 1..4 letters over xyzw and over rgba on every spellable type, as a read and as a write target"""
+    out = []
+    for letters in ("xyzw", "rgba"):
+        for n in (1, 2, 3, 4):
+            for m in itertools.product(letters, repeat=n):
+                mask = "".join(m)
+                for t in TYPES:
+                    comp = "float" if t.startswith("float") else ("uint" if t.startswith("uint") else "int")
+                    r = comp if n == 1 else "%s%d" % (comp, n)
+                    out.append(("export function f(%s a) -> %s { return a.%s; }" % (t, r, mask), dict(a=t)))
+                    out.append(("export function f(%s a, %s b) -> %s { a.%s = b; return a; }" % (t, r, t, mask), dict(a=t, b=r)))
+    return out
+
+
 ILL_TYPED = ["export function f(int a) -> int { return b; }", "export function f(float2 a, float3 b) -> float2 { return a + b; }",
              "export function f(int a) -> int { break; return a; }", "export function f(int a) -> int { int a = 1; return a; }",
              "export function f(float3 a) -> float { return a.w; }", "export function f(int[2] t) -> int { return t[2]; }",
@@ -158,6 +192,13 @@ def explore(run, scale=1):
         ps = [p for i, p in enumerate(ps) if i % 3 == (run.seed % 3)] + ps[-5:]
     for src, ptys in ps:
         run_probe(run, src, ptys, "probe")
+    for src, ptys in conv_probes():
+        run_probe(run, src, ptys, "conv")
+    sw = swizzle_probes()
+    if run.tier != "thorough":
+        sw = run.rng.sample(sw, 700 * scale)
+    for src, ptys in sw:
+        run_probe(run, src, ptys, "swizzle")
     for e in wholelang.ENTRIES:
         run_probe(run, e["src"], None, "corpus")
     for src in ILL_TYPED:
